@@ -6,6 +6,7 @@ import (
 	"encoding/hex"
 	"fmt"
 	"math/big"
+	"strings"
 
 	"github.com/libsv/go-bk/bec"
 	"github.com/libsv/go-bk/crypto"
@@ -482,6 +483,39 @@ func c20JudgeInscr(c *mon.Ctx, in *c20Inscr) {
 			if c.Try("bscript.(*Script).ParseInscription", func() { first, err = tx2.Outputs[0].LockingScript.ParseInscription() }) {
 				if err != nil || first == nil || first.ContentType != got.ContentType || !bytes.Equal(first.Data, got.Data) {
 					c.Violationf("C20:inscription:earlier-output-changed-by-a-later-inscription", "after a second Inscribe with the same prefix the first output no longer parses to what was inscribed (err=%v)", err)
+				}
+			}
+		}
+	}
+	// the same through InscribeSpecificOrdinal (two transactions, one prefix inside a larger buffer)
+	if len(in.Data) <= 4096 {
+		room := 25 + 2*(len(in.Data)+len(in.ContentType)) + 400
+		arena := bytes.Repeat([]byte{0xEE}, room)
+		copy(arena, want)
+		shared := bscript.Script(arena[:25])
+		mk := func() *bt.Tx {
+			t := bt.NewTx()
+			_ = t.From(strings.Repeat("ab", 32), 0, hex.EncodeToString(want), 10)
+			return t
+		}
+		ta, tb := mk(), mk()
+		extra := bscript.NewFromBytes(append([]byte{}, want...))
+		var e1, e2 error
+		if c.Try("bt.(*Tx).InscribeSpecificOrdinal", func() {
+			e1 = ta.InscribeSpecificOrdinal(&bscript.InscriptionArgs{LockingScriptPrefix: &shared, Data: append([]byte{}, in.Data...), ContentType: in.ContentType}, 0, 5, extra)
+			e2 = tb.InscribeSpecificOrdinal(&bscript.InscriptionArgs{LockingScriptPrefix: &shared, Data: append([]byte("second:"), in.Data...), ContentType: "x/" + in.ContentType}, 0, 5, extra)
+		}) && e1 == nil && e2 == nil && len(ta.Outputs) == 2 && len(tb.Outputs) == 2 {
+			c.Count("inscribe:specific-ordinal:two-inscriptions-from-one-prefix-inside-a-larger-buffer")
+			for i := 25; i < len(arena); i++ {
+				if arena[i] != 0xEE {
+					c.Violationf("C20:inscription:argument-memory-modified", "InscribeSpecificOrdinal wrote into the caller's buffer behind the LockingScriptPrefix argument (offset %d of the buffer)", i)
+					break
+				}
+			}
+			var first *bscript.InscriptionArgs
+			if c.Try("bscript.(*Script).ParseInscription", func() { first, err = ta.Outputs[1].LockingScript.ParseInscription() }) {
+				if err != nil || first == nil || first.ContentType != got.ContentType || !bytes.Equal(first.Data, got.Data) {
+					c.Violationf("C20:inscription:earlier-output-changed-by-a-later-inscription", "after InscribeSpecificOrdinal on another transaction with the same prefix the first inscription no longer parses to what was inscribed (err=%v)", err)
 				}
 			}
 		}
